@@ -191,6 +191,11 @@ func c12Of(w *mon.W, idx int) {
 		nArg = int32((last+1+63)&^63 + 64 + 1)
 	}
 	w.Op, w.A, w.B, w.Obj = "Of", int64(len(l)), int64(nArg), nil
+	lOrig := l
+	l, guardL := argI32(w, l)
+	if lOrig == nil {
+		l, guardL = nil, func() bool { return true }
+	}
 	if useN {
 		got = bitmap.Of(l, nArg)
 		if int(nArg) > nbits {
@@ -231,6 +236,10 @@ func c12Of(w *mon.W, idx int) {
 		w.Fail("Of/input-modified", d())
 		return
 	}
+	if !guardL() {
+		w.Fail("Of/wrote-outside-len-of-argument", d())
+		return
+	}
 	w.Op = "ToArray"
 	back := bitmap.ToArray(got)
 	w.Eval(1)
@@ -238,14 +247,17 @@ func c12Of(w *mon.W, idx int) {
 		w.Fail("ToArray(Of(l))!=l", mon.D{"positions": trunc32(in, 12), "got": trunc32(back, 12)})
 		return
 	}
-	if !retainCheck(w, "Of", "bitmap.Of/ToArray", func() uint64 { return gen.HashWords(got) }, func() uint64 { return hashI32(back) }) {
-		return
-	}
 	member := map[int32]bool{}
 	for _, p := range in {
 		member[p] = true
 	}
 	if !c12Probe(w, got, member) {
+		return
+	}
+	// hostile caller: both results are ours now
+	scribbleW(got)
+	scribbleI32(back)
+	if !retainCheck(w, "Of", "bitmap.Of/ToArray", func() uint64 { return gen.HashWords(got) }, func() uint64 { return hashI32(back) }) {
 		return
 	}
 	if len(in) > 0 {
@@ -275,6 +287,15 @@ func c12RoundTrip(w *mon.W, idx int) {
 		w.Bucket("roundtrip/trailing-zero-words")
 	}
 	orig := cloneWords(bm)
+	if bm != nil {
+		var guard func() bool
+		bm, guard = argW(w, bm)
+		defer func() {
+			if !guard() {
+				w.Fail("ToArray/wrote-outside-len-of-argument", mon.D{"nwords": len(orig)})
+			}
+		}()
+	}
 	w.Op, w.Obj = "ToArray", nil
 	arr := bitmap.ToArray(bm)
 	var exp []int32
